@@ -1,10 +1,11 @@
 #!/bin/bash
 # usage: tools/run_all_seeded.sh [ids...]   — runs each seeded change against the check of the property it breaks
 # (or the property named in meta.json "checked_with" when the change needs another property's quantifier)
-cd /verif
+HERE="$(cd "$(dirname "$0")/.." && pwd)"
+cd "$HERE"
 ids="$@"; [ -z "$ids" ] && ids=$(ls seeded | grep -E '^C[0-9]+[a-z]$')
 for sid in $ids; do
-  prop=$(python3 -c "import json;m=json.load(open('/verif/seeded/$sid/meta.json'));print(m.get('checked_with', '${sid:0:3}'))")
+  prop=$(python3 -c "import json;m=json.load(open('$HERE/seeded/$sid/meta.json'));print(m.get('checked_with', '${sid:0:3}'))")
   res=$(python3 tools/run_seeded.py seeded/$sid/patch.diff $prop 2>&1 | grep -E "^C[0-9]+ |^patch|^cannot")
   echo "$sid  $res"
   echo "$sid  $res" >> seeded/RESULTS.txt
